@@ -34,6 +34,24 @@ use std::sync::atomic::{AtomicBool, Ordering};
 use std::sync::Arc;
 
 pub static PANICKED: AtomicBool = AtomicBool::new(false);
+/// index (1-based) of the op line being executed — stamped on crash images
+pub static OP_INDEX: std::sync::atomic::AtomicU64 = std::sync::atomic::AtomicU64::new(0);
+static IMAGE_NO: std::sync::atomic::AtomicU64 = std::sync::atomic::AtomicU64::new(0);
+
+fn copy_tree(from: &std::path::Path, to: &std::path::Path) {
+    let _ = std::fs::create_dir_all(to);
+    if let Ok(rd) = std::fs::read_dir(from) {
+        for e in rd.flatten() {
+            let p = e.path();
+            let dest = to.join(e.file_name());
+            if p.is_dir() {
+                copy_tree(&p, &dest);
+            } else {
+                let _ = std::fs::copy(&p, &dest);
+            }
+        }
+    }
+}
 
 struct Node {
     system: SharedSystem,
@@ -273,6 +291,33 @@ pub async fn run() {
         get("pat_max", "100").parse().unwrap();
     server_cfg.tcp.address = "127.0.0.1:0".to_string();
 
+    // crash images (C04): after every completed file mutation (hook H2b) the data directory is copied
+    if let Some(images) = c.get("images") {
+        let images = images.clone();
+        let data_dir = dir.clone();
+        let _ = std::fs::create_dir_all(&images);
+        server::verif::set_fs_callback(Box::new(move |kind, path, len| {
+            let op = OP_INDEX.load(Ordering::SeqCst);
+            if op == 0 {
+                return; // start-up, before the first op
+            }
+            let k = IMAGE_NO.fetch_add(1, Ordering::SeqCst) + 1;
+            copy_tree(
+                std::path::Path::new(&data_dir),
+                std::path::Path::new(&format!("{images}/{k}")),
+            );
+            let rel = path.strip_prefix(&data_dir).unwrap_or(path).trim_start_matches('/');
+            use std::io::Write as _;
+            if let Ok(mut f) = std::fs::OpenOptions::new()
+                .create(true)
+                .append(true)
+                .open(format!("{images}/events.log"))
+            {
+                let _ = writeln!(f, "{k} {op} {kind} {rel} {len}");
+            }
+        }));
+    }
+
     let system = SharedSystem::new(System::new(
         server_cfg.system.clone(),
         server_cfg.data_maintenance.clone(),
@@ -318,6 +363,7 @@ pub async fn run() {
             continue;
         }
         PANICKED.store(false, Ordering::SeqCst);
+        OP_INDEX.fetch_add(1, Ordering::SeqCst);
         let f: Vec<&str> = line.split_whitespace().collect();
         let mut res = node.op(&f).await;
         if PANICKED.load(Ordering::SeqCst) {
